@@ -23,7 +23,9 @@ from harness.vlib.core import Ctx, ToolFailure
 from . import fixture, real
 
 MODEL_FILES = ["MypyVerif/Model/Types.lean", "MypyVerif/Proofs/Types.lean", "MypyVerif/Proofs/TypesSub.lean",
-               "MypyVerif/Proofs/TypesHier.lean", "MypyVerif/Proofs/TypesTrans.lean", "MypyVerif/Proofs/TypesSimp.lean"]
+               "MypyVerif/Proofs/TypesHier.lean", "MypyVerif/Proofs/TypesTrans.lean", "MypyVerif/Proofs/TypesSimp.lean",
+               "MypyVerif/Proofs/TypesJoinFuel.lean", "MypyVerif/Proofs/TypesLattice.lean", "MypyVerif/Proofs/TypesLattice2.lean",
+               "MypyVerif/Proofs/TypesJoin.lean", "MypyVerif/Proofs/TypesMeet.lean"]
 OPS = ["sub", "psub", "join", "meet", "simp"]
 FUNCTION_NAME = "<builtins.function>"
 
